@@ -5,9 +5,10 @@ SPEC = {
     "harness": "hx-chain",
     "harness_args": ["C19"],
     "translators": [],
-    "level_text": "Proof (Coq), chain-root part: in a structural model of the Merkle mountain range (post-order node list, peak stack, right-to-left bagging, resumption by position as MMR::new(size, store) does) the node at a position depends only on the leaves before it (c19_nodes_prefix), mmr_size is the node count (c19_mmr_size), reading the peaks back by position from a store that may hold stale higher nodes finds exactly the peaks (c19_peaks_read_back), and after a reorganisation of any depth — resume at the fork point, push the digests of the attached blocks — the store contains the MMR over the new main chain's header digests and the root served for every prefix is the root of exactly that prefix (c19_reorg_is_build, c19_roots_after_reorg), for any digest type and merge function. Tie and remaining clauses: real nodes run the C02 histories; after every main-chain change every stored MMR node below mmr_size(tip+1), chain_root_mmr(n).get_root() for every n, and the root committed in every main-chain block's extension are compared byte-for-byte with an MMR recomputed structurally from the main chain (real MergeHeaderDigest::merge, blake2b); membership proofs are generated and verified against the right root, a neighbouring root and with a foreign digest; block filters are built lazily through a hook and checked for the filter-hash chain and for matching every output / spent-input script (no false negative). The model recomputes the numeric digest fields of all nodes and roots (vm_compute).",
-    "level_note": "Trusted: Coq kernel; hand-written model Chain/MMR.v (correspondence-checked on every stored node and root). The position arithmetic of the external crate ckb-merkle-mountain-range is tied to the structural model by the correspondence check only; leaf counts below 2^41. Membership-proof soundness ('verifies against no other chain') and the block-filter clauses (coverage of scripts, hash chaining, restart of the builder after a reorganisation) are decided by the harness's property predicate on generated histories, not by a theorem; blake2b and the golomb-coded-set codec are outside the model.",
+    "level_text": "Proof (Coq), chain-root part: in a structural model of the Merkle mountain range (post-order node list, peak stack, right-to-left bagging, resumption by position as MMR::new(size, store) does) the node at a position depends only on the leaves before it (c19_nodes_prefix), mmr_size is the node count (c19_mmr_size), reading the peaks back by position from a store that may hold stale higher nodes finds exactly the peaks (c19_peaks_read_back), and after a reorganisation of any depth — resume at the fork point, push the digests of the attached blocks — the store contains the MMR over the new main chain's header digests and the root served for every prefix is the root of exactly that prefix (c19_reorg_is_build, c19_roots_after_reorg), for any digest type and merge function; for the block filters, one pass of the filter builder after any change of the main chain never hits its expect, leaves every main-chain block with a filter hash and every filter hash is the hash chain over the block's ancestry (c19_filter_pass_ok). Tie and remaining clauses: real nodes run the C02 histories; after every main-chain change every stored MMR node below mmr_size(tip+1), chain_root_mmr(n).get_root() for every n, and the root committed in every main-chain block's extension are compared byte-for-byte with an MMR recomputed structurally from the main chain (real MergeHeaderDigest::merge, blake2b); membership proofs are generated and verified against the right root, a neighbouring root and with a foreign digest; block filters are built lazily through a hook and checked for the filter-hash chain and for matching every output / spent-input script (no false negative). The model recomputes the numeric digest fields of all nodes and roots (vm_compute).",
+    "level_note": "Trusted: Coq kernel; hand-written model Chain/MMR.v (correspondence-checked on every stored node and root). The position arithmetic of the external crate ckb-merkle-mountain-range is tied to the structural model by the correspondence check only; leaf counts below 2^41. Membership-proof soundness ('verifies against no other chain') and the filters' coverage of output / spent-input scripts are decided by the harness's property predicate on generated histories, not by a theorem; blake2b and the golomb-coded-set codec are outside the model.",
     "trusted_base": COMMON_TB + [
+        "hand-written model coq/Chain/Filter.v of block-filter/src/filter.rs (build_filter_data restart logic, filter-hash chain)",
         "hand-written model coq/Chain/MMR.v of chain/src/verify.rs reconcile_main_chain (MMR resume + push), util/snapshot chain_root_mmr, the ckb-merkle-mountain-range push/get_root algorithm (structural transcription)",
         "hook 7194ea3 (ckb-block-filter verif-hooks: synchronous build_filter_data)",
         "modelled, not verified: blake2b (digests abstract / numeric fields only), golomb-coded-set, RocksDB",
